@@ -45,8 +45,11 @@ def guarded(fn):
 def path_op(ctx, job, box):
     cols, lines = job.params['geom']
     label, op, mk = job.params['opspec']
-    run = GridRun(ctx, box, cols, lines, cursor='pick', tabstops=1, savepoints=job.params.get('savepoints', 0),
-                  sp_charsets='fixed')
+    if job.params.get('wide'):
+        run = GridRun(ctx, box, cols, lines, cursor=(3, 0), tabstops=1, sp_charsets='fixed', buffer='none')
+    else:
+        run = GridRun(ctx, box, cols, lines, cursor='pick', tabstops=1, savepoints=job.params.get('savepoints', 0),
+                      sp_charsets='fixed')
     run.eng.step_budget = 400_000
     L = run.L
     run.call(op, *mk(ctx))
@@ -181,6 +184,10 @@ def jobs(tier):
     for spec in sweep.ops(tier, 2, 2):
         if spec[1] in ('restore_cursor', 'resize'):
             js.append(Job('op/%s+savepoint/2x2' % spec[0], path_op, opspec=spec, geom=(2, 2), savepoints=1, prop=PROP))
+    # a 132-column screen (reachable by resize, Screen::new, or SM ?3 followed by RIS) for the width-switching modes
+    for spec in sweep.ops(tier, 132, 1):
+        if 'DECCOLM' in spec[0] or spec[1] in ('reset', 'tab'):
+            js.append(Job('op/%s/132x1' % spec[0], path_op, opspec=spec, geom=(132, 1), wide=True, prop=PROP))
     n = 3 if tier == 'quick' else 4
     js.append(Job('chars/len%d' % n, path_chars, len=n, prop=PROP))
     shaped = [('\x1b[', 2), ('\x9b', 2), ('\x9b1;', 2), ('\x9b?', 2), ('\x1b]', 2), ('\x9d0;', 2), ('\x9b' + '9' * 22, 1),
